@@ -282,20 +282,59 @@ theorem C12_get_sed (toNu : K → K) (c : Cube K) (name : String) :
 
 end getsed
 
-/-- **C12 (convolved fluxes).** Write-then-read keeps the central wavelength, the apertures (also their
-    absence), and every (model, aperture) flux and error cell; model names go through the 30-byte
-    column and are unchanged when they fit. -/
-theorem C12_conv_cell {K : Type} (c : Conv K) :
-    (convRead (convWrite c)).wavelength = c.wavelength ∧ (convRead (convWrite c)).aps = c.aps ∧
-    (convRead (convWrite c)).names = c.names.map s30 ∧
+/-- **C12 (convolved fluxes).** For a rectangular object (`flux`, `error` of shape `(n_models, n_ap)`, with
+    `n_ap = 1` when there are no apertures) write-then-read succeeds and returns the object itself up to
+    the 30-byte name column: central wavelength (also its absence), apertures (also their absence) and
+    every (model, aperture) flux and error cell are unchanged; names are unchanged when they fit. -/
+theorem C12_conv_cell {K : Type} (c : Conv K)
+    (hf : c.flux.length = c.names.length) (he : c.err.length = c.names.length)
+    (hfr : ∀ r ∈ c.flux, r.length = convNAp c) (her : ∀ r ∈ c.err, r.length = convNAp c) :
+    convRead (convWrite c) = some { c with names := c.names.map s30 } ∧
     (∀ n ∈ c.names, n.length ≤ 30 → s30 n = n) ∧
-    ∀ m a : Nat, convFlux (convRead (convWrite c)) m a = convFlux c m a ∧
-      convErr (convRead (convWrite c)) m a = convErr c m a := by
-  refine ⟨rfl, rfl, rfl, ?_, fun m a => ⟨rfl, rfl⟩⟩
-  intro n _ hn
-  unfold s30
-  rw [List.take_of_length_le (by rw [String.length_toList]; exact hn)]
-  simp
+    ∀ r, convRead (convWrite c) = some r →
+      r.wavelength = c.wavelength ∧ r.aps = c.aps ∧
+      ∀ m a : Nat, convFlux r m a = convFlux c m a ∧ convErr r m a = convErr c m a := by
+  have hread : convRead (convWrite c) = some { c with names := c.names.map s30 } := by
+    have hcol : ∀ rows : List (List K), rows.length = c.names.length → (∀ r ∈ rows, r.length = convNAp c) →
+        colRead (c.names.map s30).length (convNAp c) (.d2 rows) = some rows := by
+      intro rows hl h
+      have hall : rows.all (fun r => r.length == convNAp c) = true := by
+        rw [List.all_eq_true]
+        intro r hr
+        simpa using h r hr
+      simp only [colRead, List.length_map, hl, hall, and_self, if_true]
+    have hn : fileNAp (convWrite c) = convNAp c := rfl
+    unfold convRead
+    rw [hn]
+    have e1 : (convWrite c).names = c.names.map s30 := rfl
+    have e2 : (convWrite c).flux = .d2 c.flux := rfl
+    have e3 : (convWrite c).err = .d2 c.err := rfl
+    rw [e1, e2, e3, hcol c.flux hf hfr, hcol c.err he her]
+    rfl
+  refine ⟨hread, ?_, ?_⟩
+  · intro n _ hn
+    unfold s30
+    rw [List.take_of_length_le (by rw [String.length_toList]; exact hn)]
+    simp
+  · intro r hr
+    rw [hread] at hr
+    cases hr
+    exact ⟨rfl, rfl, fun m a => ⟨rfl, rfl⟩⟩
+
+/-- **C12 (convolved fluxes, scalar columns).** A file whose flux / error columns hold one number per
+    model and which has a single aperture (or no aperture list) is read as an `(n_models, 1)` array with
+    the same numbers; `FILTWAV` / `APERTURES` absent → `None`. -/
+theorem C12_conv_read_1d {K : Type} (f : ConvFile K) (v e : List K) (hfl : f.flux = .d1 v) (her : f.err = .d1 e)
+    (hap : fileNAp f = 1) (hv : v.length = f.names.length) (he : e.length = f.names.length) :
+    convRead f = some { wavelength := f.filtwav, names := f.names, aps := f.aps,
+                        flux := v.map (fun x => [x]), err := e.map (fun x => [x]) } := by
+  simp only [convRead, colRead, hfl, her, hap, hv, he, and_self, if_true]
+
+/-- **C12 (SED without uncertainties).** `SED.write` refuses an SED whose errors are not set; uncertainties
+    are optional for cubes (and for `get_sed`) only. -/
+theorem C12_sed_no_err_refused {K : Type} [Zero K] [LT K] [DecidableLT K] (tiny : K) (s : Sed K)
+    (h : s.err = none) : sedWrite tiny s = none := by
+  simp only [sedWrite, h]
 
 /-! ### Non-vacuity (over ℚ) -/
 
@@ -344,5 +383,17 @@ example : cubeRead (fun w => 1 / w) .wav (cubeWrite (fun w => 1 / w) c12ExCube)
 
 example : (getSed (fun w => 1 / w) c12ExCube "b").map (fun s => (s.flux, s.err, s.aps))
     = some ([[4, 5, 6]], none, none) := by decide +kernel
+
+/-- a convolved-flux object without central wavelength and without apertures -/
+def c12ExConv : Conv Rat :=
+  { wavelength := none, names := ["a", "b"], aps := none, flux := [[7], [8]], err := [[1], [2]] }
+
+example : c12ExConv.flux.length = c12ExConv.names.length ∧ (∀ r ∈ c12ExConv.flux, r.length = convNAp c12ExConv) ∧
+    (∀ r ∈ c12ExConv.err, r.length = convNAp c12ExConv) := by decide
+
+example : convRead (convWrite c12ExConv) = some c12ExConv := by decide
+
+example : convRead ({ filtwav := none, names := ["a", "b"], aps := none, flux := .d1 [7, 8], err := .d1 [1, 2] } : ConvFile Rat)
+    = some c12ExConv := by decide
 
 end SF
